@@ -1527,9 +1527,14 @@ def bytes_attr(E, v, name):
                     E.throw('UnicodeDecodeError', 'invalid')
             # validity of UTF-8 is an uninterpreted predicate of the bytes; decoding may fail
             s = E.fresh_str('decoded')
-            ok = E.fresh_bool('utf8_valid')
-            if not E.decide(ok, 'utf8'):
-                E.throw('UnicodeDecodeError', 'invalid utf-8')
+            if errors == 'strict':
+                ok = E.fresh_bool('utf8_valid')
+                if not E.decide(ok, 'utf8'):
+                    E.throw('UnicodeDecodeError', 'invalid utf-8')
+            elif errors not in ('replace', 'ignore'):
+                raise Unsupported('bytes.decode errors=%r' % (errors,))
+            else:
+                return s        # lossy decoding: not invertible, so no bytes are remembered for encode()
             E.path.ghost.setdefault('str_bytes', {})[s.h.get_id()] = b
             return s
         return Builtin('bytes.decode', decode)
